@@ -135,3 +135,6 @@ def run(prog, rep, tier, cfg):
             if callee_is('state::State::validate_miner_has_claim')(c):
                 X.arg_has('K10', 'power:claim-of-caller', c, 2, ['C:MessageInfo::caller'], 'the claim checked is the caller\'s', narrow=False)
     rep.need('K5', 'power:update-in-transaction', seen_cl, 'UpdatePledgeTotal changes the total inside its state transaction', X.loc(UP))
+    # ---- running totals (amounts, power, datacap) accumulated in loops keep their earlier contributions
+    X.accumulator_integrity('K12', 'running-totals', ['fil_actor_miner', 'fil_actor_power'], 'running totals of amounts')
+
